@@ -6,7 +6,7 @@ func init() {
 		"the whole statement in the form `no public operation writes memory that existed before it started` (R1 over every public root: receiver, arguments and every frame, grouper or view that shares storage with them stay bit-for-bit unchanged for every sharing history; append on a prestate slice counts as a write).",
 		"nothing is excluded; the verdict rests on the points-to abstraction (allocation-site objects, folded recursive paths, by-value nesting bounded at 5) and on the library summary table.",
 		"New keeps the caller's slices by reference: a caller who later writes them alters the frame (caller's write, outside the property)")
-	prop("C02", []string{"R3", "R4", "R5", "R6", "R7", "R8", "R42", "R40", "R31", "R35", "R59", "R57", "R67", "R74"},
+	prop("C02", []string{"R3", "R4", "R5", "R6", "R7", "R8", "R42", "R40", "R31", "R35", "R59", "R57", "R67", "R74", "R79", "R80"},
 		"(i) OR accumulation is sound for every nesting: every store into the shared boolean index is monotone (R3); (ii) every built-in comparison kernel compares with the operator its table key names, cell on the left, column arguments read on the same row, all five types agreeing (R4); (iii) the negation shortcut is the logical complement including nulls, per column type (R5); (iv) kernels read the cell of row i at physical position index[i] and write bit i (R6, R42); (v) kept rows are a subsequence of the frame's rows in order, once each, foreign positions excluded (R7, R8); errors of column kernels reach Err (R31).",
 		"that orFrames' merge selects exactly the union and NotClause exactly the difference (value reasoning; they are in-order subsequences by R8); semantics of in/any_bits/all_bits; int<->float promotion; user predicates.")
 	prop("C03", []string{"R9", "R10", "R7", "R1s", "R6", "R78"},
@@ -18,19 +18,19 @@ func init() {
 	prop("C05", []string{"R11", "R12", "R10", "R6", "R7", "R8", "R38", "R54", "R55", "R1g", "R25", "R39", "R74", "R76"},
 		"returned rows are input rows, unmodified (R7: first positions come from the index; withIndex shares columns; R1g); each occupied table entry contributes exactly once (R8 on the collection loop); entries are distinct keys (R11) and equal keys share a hash (R12, R10); probing is masked by the table's own length (R38); options are consulted (R25); column names are validated before any success return (R39).",
 		"the open-addressing table as an algorithm (same as C04).")
-	prop("C06", []string{"R6", "R42", "R40", "R53", "R13", "R8", "R1a", "R43", "R68"},
+	prop("C06", []string{"R6", "R42", "R40", "R53", "R13", "R8", "R1a", "R43", "R68", "R82"},
 		"source and destination use the same physical row, result slices are sized by the column's physical length (R42), user functions run once per row of the frame in frame order (R40), every access goes through the index (R6); the destination replaces an existing column in its position or is appended last for frames however derived (R13); nothing else changes (R1a); FilteredApply restores the original index on the result (R43).",
 		"which built-in a name resolves to; result typing by function signature; zero/null fill of unmatched rows (follows from make's zero values plus R42's sizing; argued, not checked).")
 	prop("C07", []string{"R14", "R15", "R21", "R31", "R53", "R1a", "R1x", "R47", "R13", "R40", "R42", "R6"},
 		"no temporary survives and no original column is dropped (R14); operands are applied in the order written in the binary forms, across the constructor/execute pairs (R15); function lookups are comma-ok and failures surface through Err (R21, R31); evaluation does not write the original frame or the evaluation context (R1a).",
 		"the left fold of n-ary Expr (recursive slice surgery); decoding priority in newExpr; that the function found is the right one.")
-	prop("C08", []string{"R16", "R17", "R18", "R13", "R19", "R25", "R1n", "R39", "R51", "R1r", "R73"},
+	prop("C08", []string{"R16", "R17", "R18", "R13", "R19", "R25", "R1n", "R39", "R51", "R1r", "R73", "R82"},
 		"unequal lengths are rejected for every column order (R16); illegal names never enter a frame (R17); Slice validates 0<=start<=end<=len before slicing (R18); positions stay consistent through New/Select/Drop/Copy (R13); the string cell packing is one consistent bit layout (R19); ColumnOrder/Enums are consulted (R25); projections do not disturb the source (R1n); column names are validated before any success return (R39).",
 		"that cell values are reproduced (value level); alphabetical default order (a sort.Strings call exists; listed, not proved); byte-blob offsets in scolumn.New*.")
 	prop("C09", []string{"R6", "R42", "R44", "R63", "R70", "R13"},
 		"every accessor translates logical row i to position index[i]: views, ToCSV, ToJSON, String, ToSQL builders, Equals (R6); Equals reads the receiver through its own index and the other column through the other index at the same logical row, for all five types, and a type mismatch is unequal (R44); column order observed through names and through positions agree (R13).",
 		"reflexivity/symmetry/transitivity as such; NaN/null equality is checked only as far as R44's shape; String's truncation; `rebuilt with New is Equal`.")
-	prop("C10", []string{"R20", "R21", "R22", "R23", "R17", "R18", "R31", "R41", "R39", "R46", "R52", "R16"},
+	prop("C10", []string{"R20", "R21", "R22", "R23", "R17", "R18", "R31", "R41", "R39", "R46", "R52", "R16", "R81"},
 		"stickiness without callbacks, Len() = -1 on error, writers refuse errored frames (R20); dynamic union types are decoded without a panicking construct: table lookups are comma-ok before the call (R21), non-comma-ok type assertions and explicit panics equal the frozen documented lists (R22, R23); illegal names and bad slice bounds are rejected (R17, R18); errors from column kernels reach Err (R31); results of failing calls are not used before the error test (R41); names are validated before any early success return (R39).",
 		"absence of implicit panics in general (index out of range, nil dereference) beyond the specific ones above; nil FilterClause/Expression arguments and zero-value clause structs.")
 	prop("C11", []string{"R1", "R2", "R47", "R65"},
@@ -59,7 +59,7 @@ func init() {
 	prop("C18", []string{"R35", "R59", "R57", "R33", "R3", "R42", "R74"},
 		"matcher selection and anchoring for all 16 pattern classes, both column types agreeing (R35); the custom upper-casing never stores a non-ASCII rune as a single byte (R33); nulls never reach the matcher (R35 dominance; enum matching ranges over values).",
 		"agreement of the rest of the ToUpper copy with strings.ToUpper (buffer growth, length-changing code points); regular-expression assembly.")
-	prop("C19", []string{"R6", "R36", "R25", "R29", "R31", "R41", "R48", "R2c", "R1w", "R1r", "R71"},
+	prop("C19", []string{"R6", "R36", "R25", "R29", "R31", "R41", "R48", "R2c", "R1w", "R1r", "R71", "R83"},
 		"necessary conditions only: rows and arguments are taken through the index in frame order (R6); all five column types have an argument builder (R36); all dialect/config fields are consulted (R25); driver errors surface and a failing result set is not taken for a complete one (R29, R31, R41).",
 		"statement text per dialect; typed scanning and NULL back-fill; write/read agreement through a real store.")
 }
